@@ -932,14 +932,17 @@ func c16Multi(r *Run) {
 	var wg sync.WaitGroup
 	r.Go("main", func() {
 		defer func() { mainT.done = true }()
-		srv = client.NewCqlServer("10.0.0.2:9042", nil)
-		srv.MaxConnections = maxConns
-		srv.AcceptTimeout = 5 * time.Second
+		// the server becomes visible to the fault injector only once Start has returned: closing a
+		// server that is still starting is not a use the statement covers
+		s0 := client.NewCqlServer("10.0.0.2:9042", nil)
+		s0.MaxConnections = maxConns
+		s0.AcceptTimeout = 5 * time.Second
 		var err error
-		mainT.call(r, "Server.Start", func() { err = srv.Start(srvCtx) })
+		mainT.call(r, "Server.Start", func() { err = s0.Start(srvCtx) })
 		if err != nil {
 			return
 		}
+		srv = s0
 		for i := 0; i < C; i++ {
 			i := i
 			ct := st.task(fmt.Sprintf("client%d", i))
